@@ -394,6 +394,20 @@ Section Indep.
   Qed.
 End Indep.
 
+(* ================= dry runs ================= *)
+(* generate_all(is_dryrun=True) writes nothing and leaves the unique-name generator, the memo tables and every line processor
+   as they were (only the loader memo of that generator may grow -- which template_selection_lemma shows to be unobservable) *)
+Lemma dry_run_lemma U bases cname fuel render cfun maxsize resets lel s gid args order :
+  let r := op_step U bases cname fuel render cfun maxsize resets lel s (ORun gid args true order) in
+  snd r = [] /\ p_uniq (fst r) = p_uniq s /\ p_cache (fst r) = p_cache s /\
+  map go_pps (p_gens (fst r)) = map go_pps (p_gens s).
+Proof.
+  cbn [op_step]. destruct (nth_error (p_gens s) gid) as [g|] eqn:E; cbn [fst snd p_uniq p_cache p_gens]; repeat split; try reflexivity.
+  revert gid E. induction (p_gens s) as [|x l IH]; intros [|n] E; cbn [nth_error] in E; try discriminate; cbn [set_nth map].
+  - injection E as ->. reflexivity.
+  - f_equal. apply IH, E.
+Qed.
+
 (* ================= LimitEmptyLines.reset ================= *)
 (* what the model calls a freshly constructed processor is what the translated reset() produces: the state the processor had
    when it was constructed (same limit, counter 0) *)
